@@ -484,6 +484,7 @@ def c27(ck, F, tier):
     guarded(ck, rs.wellformed_guards, F)
     guarded(ck, rs.spill_rules, F)
     guarded(ck, rs.descriptor_order, F)
+    guarded(ck, rs.shift_lower_bounds, F)
 
 
 def c30(ck, F, tier):
